@@ -354,6 +354,12 @@ func (x *Exec) body(i int) func(context.Context) error {
 			x.doCancel()
 			out = 2
 			return r.err
+		case BehCancelGoexit:
+			x.doCancel()
+			runtime.Goexit()
+		case BehWaitDeadline:
+			<-ctx.Done()
+			x.cancelStamp.CompareAndSwap(0, x.stamp())
 		}
 		out = 1
 		return nil
@@ -384,6 +390,11 @@ func (x *Exec) quietBody(i int, ctx context.Context) error {
 	case BehCancelErr:
 		x.cancelFn()
 		return x.recs[i].err
+	case BehCancelGoexit:
+		x.cancelFn()
+		runtime.Goexit()
+	case BehWaitDeadline:
+		<-ctx.Done()
 	}
 	return nil
 }
@@ -399,8 +410,19 @@ func newExec(sc *Scenario, quiet bool) *Exec {
 		x.recs[i].err = &jobErr{i}
 	}
 	x.marker, x.otherMarker = new(int), new(int)
-	base, cancel := context.WithCancel(context.WithValue(context.Background(), ctxKey{}, x.marker))
-	x.ctx, x.cancelFn = base, cancel
+	root := context.WithValue(context.Background(), ctxKey{}, x.marker)
+	switch {
+	case sc.CancelKind == CancelDeadlinePast:
+		x.ctx, x.cancelFn = context.WithDeadline(root, time.Now().Add(-time.Second))
+		x.cancelReq.Store(1)
+		x.cancelStamp.Store(1) // done before anything else happens
+		x.clock.Store(1)
+	case sc.DeadlineUS > 0:
+		x.ctx, x.cancelFn = context.WithTimeout(root, time.Duration(sc.DeadlineUS)*time.Microsecond)
+		x.cancelReq.Store(1) // may expire at any time
+	default:
+		x.ctx, x.cancelFn = context.WithCancel(root)
+	}
 	x.otherCtx = context.WithValue(context.Background(), ctxKey{}, x.otherMarker)
 	x.gate = make(chan struct{})
 	x.reached = make(chan struct{})
@@ -439,16 +461,46 @@ func materialiseBarrier(sc *Scenario, limit int) {
 		return
 	}
 	k := []int{1, limit, 3 * limit, 0}[sc.Index%4]
-	for i := 0; i < k; i++ {
-		sc.Jobs = append(sc.Jobs, JobSpec{Beh: BehGoexit})
+	barrierOther := false
+	switch sc.Variant {
+	case 0: // jobs that kill their goroutine
+		for i := 0; i < k; i++ {
+			sc.Jobs = append(sc.Jobs, JobSpec{Beh: BehGoexit})
+		}
+	case 1: // jobs that cancel their own context and then kill their goroutine
+		for i := 0; i < k; i++ {
+			sc.Jobs = append(sc.Jobs, JobSpec{Beh: BehCancelGoexit})
+		}
+		barrierOther = k > 0
+	case 2: // a failing root with k dependents, which are invalidated, not run
+		if k > 0 {
+			sc.Jobs = append(sc.Jobs, JobSpec{Beh: BehErr})
+			for i := 0; i < k; i++ {
+				sc.Jobs = append(sc.Jobs, JobSpec{Deps: []int{0}})
+			}
+			k++
+		}
+	case 3: // jobs skipped because the context is done when they are dispatched
+		if k > 0 {
+			sc.Jobs = append(sc.Jobs, JobSpec{Beh: BehCancelOK})
+			for i := 0; i < k; i++ {
+				sc.Jobs = append(sc.Jobs, JobSpec{Deps: []int{0}})
+			}
+			k++
+			barrierOther = true
+		}
 	}
 	for i := 0; i < limit; i++ {
-		j := JobSpec{Bar: true}
-		if k > 0 && sc.Index%3 == 0 {
-			j.Pace, j.PaceArg = PaceAfterDepEnded, k-1 // only pacing: no dependency on the dead job
+		j := JobSpec{Bar: true, OtherCtx: barrierOther}
+		if k > 0 {
+			j.Pace, j.PaceArg = PaceAfterDepEnded, 0 // only pacing: no dependency
+			if sc.Index%3 != 0 {
+				j.Pace, j.PaceArg = PaceYields, 3
+			}
 		}
 		sc.Jobs = append(sc.Jobs, j)
 	}
+	sc.WaitOtherCtx = barrierOther
 }
 
 func (x *Exec) pace(i int) {
